@@ -24,7 +24,7 @@ RULE = ('generated well-formed workbooks (as C10) x {plots on/off, histogram she
         'duplicates) for the write/read round trip; the shipped example workbook (thorough); non-trivial = workbook with '
         '>= 1 bead row or plots on, or round-trip table with >= 1 empty cell; distinct = digest(workbook, options)')
 ASSUMPTIONS = ['cell equality: NaN == empty, numeric equality across int/float',
-               'step budget = 40e6 + 12e6 per row (a typical row costs ~1.1e6 steps); the wall-clock watchdog only yields inconclusive']
+               'step budget = 8e6 + 6e6 per row (a typical row costs ~1.1e6 counted steps, the most expensive seen 1.2e6); exceeding it aborts the run and is a violation; the wall-clock watchdog only yields inconclusive']
 MIN_CHECKS = {'quick': 400, 'thorough': 6000}
 REQUIRED_COUNTERS = ['chk:run', 'chk:workbook', 'chk:figures', 'chk:roundtrip']
 TIMEOUT_S = {'quick': 2400, 'thorough': 14000}
@@ -92,13 +92,16 @@ def run(ctx):
         d = dict(plot=plot, hist_sheet=hist, explicit_output=explicit, n_beads=len(btab), n_samples=len(stab),
                  clustering_channels=ncl)
         np.random.seed(int(rng.integers(1 << 30)))
+        rows = len(btab) + len(stab)
+        budget = int(8e6 + 6e6 * rows)
         with warnings.catch_warnings():
             warnings.simplefilter('ignore')
-            with reach.StepCounter(core.repo_root()) as sc:
-                o = core.attempt(E.run, input_path=inp, output_path=outp, verbose=False, plot=plot, hist_sheet=hist)
+            with reach.StepCounter(core.repo_root(), budget=budget) as sc:
+                try:
+                    o = core.attempt(E.run, input_path=inp, output_path=outp, verbose=False, plot=plot, hist_sheet=hist)
+                except reach.StepBudgetExceeded as e:      # the workflow did not finish within its logical step budget
+                    o = core.Outcome(None, RuntimeError('step budget exceeded: %s' % e), [])
         plt.close('all')
-        rows = len(btab) + len(stab)
-        budget = int(40e6 + 12e6 * rows)
         ctx.counters['chk:run'] += 1
         ctx.notes['steps_per_row_max(shard %d)' % ctx.shard] = max(ctx.notes.get('steps_per_row_max(shard %d)' % ctx.shard, 0),
                                                                   int(sc.steps / max(rows, 1)))
